@@ -415,7 +415,7 @@ func (t *T) gobWriteStmt(s ast.Stmt, subject string) (string, bool) {
 
 func (t *T) genGobW() string {
 	var sb strings.Builder
-	sb.WriteString("From AP.Model Require Import Prelude Vocab GobTables.\n\n")
+	sb.WriteString("From AP.Model Require Import Prelude Vocab Layout GobTables.\n\n")
 	var names []string
 	for _, fd := range t.gobFuncs("map") {
 		subject, kind := t.gobSubject(fd)
@@ -433,6 +433,8 @@ func (t *T) genGobW() string {
 		names = append(names, fmt.Sprintf("(%s, %s, gw_%s)", coqStr(fd.Name.Name), k, fd.Name.Name))
 	}
 	fmt.Fprintf(&sb, "Definition gobw_funcs : list (bytes * option kind * list gwentry) := [\n  %s].\n\n", strings.Join(names, ";\n  "))
+	sb.WriteString(t.genGobLeaf(true))
+	sb.WriteString(t.genGobLeafLayouts())
 	sb.WriteString(t.gobMethods("GobEncode", "gob_enc_methods"))
 	sb.WriteString(t.gobAliases("MarshalBinary", "gob_marshal_binary"))
 	return sb.String()
@@ -560,6 +562,8 @@ func (t *T) genGobR() string {
 		names = append(names, fmt.Sprintf("(%s, %s, gr_%s)", coqStr(fd.Name.Name), k, fd.Name.Name))
 	}
 	fmt.Fprintf(&sb, "Definition gobr_funcs : list (bytes * option kind * list grentry) := [\n  %s].\n\n", strings.Join(names, ";\n  "))
+	sb.WriteString(t.genGobLeaf(false))
+	sb.WriteString(t.genGobSniff())
 	sb.WriteString(t.gobMethods("GobDecode", "gob_dec_methods"))
 	sb.WriteString(t.gobAliases("UnmarshalBinary", "gob_unmarshal_binary"))
 	return sb.String()
@@ -658,4 +662,274 @@ func (t *T) gobAliases(meth, defname string) string {
 	}
 	sort.Strings(parts)
 	return fmt.Sprintf("(* body of every %s: (receiver type, method it returns the result of) *)\nDefinition %s : list (bytes * bytes) := [\n  %s].\n", meth, defname, strings.Join(parts, ";\n  "))
+}
+
+// ---------------------------------------------------------------- leaf structs and the sniffing order
+//
+// Source, PublicKey and Endpoints are property maps of their own: T.GobEncode / (*T).GobDecode have the
+// statement shapes of map<T>Properties / unmap<T>Properties inside a fixed frame (declarations, the
+// `if !hasData` return, the encoder / the empty-input return, the map decode).  The entries are emitted
+// with gobWriteStmt / gobReadStmt; the frame statements are classified into roles, emitted in source
+// order with the marker "entries" where the (contiguous or not) entries stand - each entry adds one
+// marker, consecutive markers are merged.  A statement that is neither is an Unrecognised entry.
+
+var gobLeafStructs = []string{"Endpoints", "PublicKey", "Source"}
+
+func squash(s string) string { return strings.Join(strings.Fields(s), " ") }
+
+var gobLeafWriteFrame = map[string]string{
+	"var ( mm = make(map[string][]byte) err error hasData bool )": "decl",
+	"if !hasData { return []byte{}, nil }":                         "nodata-empty",
+	"bb := bytes.Buffer{}":                                         "buffer",
+	"g := gob.NewEncoder(&bb)":                                     "encoder",
+	"if err := g.Encode(mm); err != nil { return nil, err }":       "encode-mm",
+	"return bb.Bytes(), nil":                                       "return-bytes",
+}
+
+var gobLeafReadFrame = map[string]string{
+	"if len(data) == 0 { return nil }":                       "empty-nil",
+	"mm := make(map[string][]byte)":                          "make-mm",
+	"g := gob.NewDecoder(bytes.NewReader(data))":             "decoder",
+	"if err := g.Decode(&mm); err != nil { return err }":     "decode-mm",
+	"mm, err := gobDecodeObjectAsMap(data)":                  "decode-as-map",
+	"if err != nil { return err }":                           "err-return",
+	"return nil":                                             "return-nil",
+}
+
+func (t *T) gobLeafMethod(recv, meth string) *ast.FuncDecl {
+	for _, f := range t.pkg.Syntax {
+		for _, d := range f.Decls {
+			fd, ok := d.(*ast.FuncDecl)
+			if !ok || fd.Recv == nil || fd.Body == nil || fd.Name.Name != meth || len(fd.Recv.List) != 1 || len(fd.Recv.List[0].Names) != 1 {
+				continue
+			}
+			if strings.TrimPrefix(t.src(fd.Recv.List[0].Type), "*") == recv {
+				return fd
+			}
+		}
+	}
+	return nil
+}
+
+// (entries, frame) of one leaf method
+func (t *T) gobLeafRows(fd *ast.FuncDecl, write bool) (rows []string, frame []string) {
+	subject := fd.Recv.List[0].Names[0].Name
+	mark := func() {
+		if n := len(frame); n == 0 || frame[n-1] != coqStr("entries") {
+			frame = append(frame, coqStr("entries"))
+		}
+	}
+	for _, s := range fd.Body.List {
+		txt := squash(t.src(s))
+		if write {
+			if role, ok := gobLeafWriteFrame[txt]; ok {
+				frame = append(frame, coqStr(role))
+				continue
+			}
+			r, _ := t.gobWriteStmt(s, subject)
+			if r != "" {
+				rows = append(rows, r)
+				mark()
+			} else {
+				// boilerplate of the map<T>Properties vocabulary that has no place in a leaf method
+				rows = append(rows, fmt.Sprintf("GWUnrecognised %s %s", coqStr(t.src(s)), coqStr(t.pos(s))))
+				mark()
+			}
+		} else {
+			if role, ok := gobLeafReadFrame[txt]; ok {
+				frame = append(frame, coqStr(role))
+				continue
+			}
+			r, _ := t.gobReadStmt(s, subject)
+			if r != "" {
+				rows = append(rows, r)
+				mark()
+			} else {
+				rows = append(rows, fmt.Sprintf("GRUnrecognised %s %s", coqStr(t.src(s)), coqStr(t.pos(s))))
+				mark()
+			}
+		}
+	}
+	return rows, frame
+}
+
+func (t *T) genGobLeaf(write bool) string {
+	var sb strings.Builder
+	meth, ety, pfx, def := "GobDecode", "grentry", "gr_leaf_", "gobr_leaf"
+	if write {
+		meth, ety, pfx, def = "GobEncode", "gwentry", "gw_leaf_", "gobw_leaf"
+	}
+	var names []string
+	for _, recv := range gobLeafStructs {
+		fd := t.gobLeafMethod(recv, meth)
+		var rows, frame []string
+		pos := "?"
+		if fd != nil {
+			rows, frame = t.gobLeafRows(fd, write)
+			pos = t.pos(fd)
+		} else if write {
+			rows = []string{fmt.Sprintf("GWUnrecognised %s %s", coqStr("no method "+recv+"."+meth), coqStr("?"))}
+		} else {
+			rows = []string{fmt.Sprintf("GRUnrecognised %s %s", coqStr("no method "+recv+"."+meth), coqStr("?"))}
+		}
+		fmt.Fprintf(&sb, "(* %s.%s %s *)\nDefinition %s%s : list %s := [\n  %s].\n", recv, meth, pos, pfx, recv, ety, strings.Join(rows, ";\n  "))
+		fmt.Fprintf(&sb, "Definition %s%s_frame : list bytes := [\n  %s].\n\n", pfx, recv, strings.Join(frame, "; "))
+		names = append(names, fmt.Sprintf("(%s, (%s%s, %s%s_frame))", coqStr(recv), pfx, recv, pfx, recv))
+	}
+	fmt.Fprintf(&sb, "Definition %s : list (bytes * (list %s * list bytes)) := [\n  %s].\n\n", def, ety, strings.Join(names, ";\n  "))
+	return sb.String()
+}
+
+// struct layouts of the leaf structs (field, Go type class, size, alignment, offset, jsonld term)
+func (t *T) genGobLeafLayouts() string {
+	var sb strings.Builder
+	var names []string
+	for _, name := range gobLeafStructs {
+		st := t.structOf(name)
+		var parts []string
+		if st != nil {
+			fields := make([]*types.Var, st.NumFields())
+			for i := range fields {
+				fields[i] = st.Field(i)
+			}
+			offs := t.sizes.Offsetsof(fields)
+			for i, f := range fields {
+				parts = append(parts, fmt.Sprintf("mkfd F_%s %s %d %d %d %s", f.Name(), t.gotype(f.Type()),
+					t.sizes.Sizeof(f.Type()), t.sizes.Alignof(f.Type()), offs[i], coqStr(jsonldTerm(st.Tag(i)))))
+			}
+		}
+		fmt.Fprintf(&sb, "Definition gob_layout_%s : list fdecl := [\n  %s].\n", name, strings.Join(parts, ";\n  "))
+		names = append(names, fmt.Sprintf("(%s, gob_layout_%s)", coqStr(name), name))
+	}
+	fmt.Fprintf(&sb, "Definition gob_leaf_layouts : list (bytes * list fdecl) := [\n  %s].\n\n", strings.Join(names, ";\n  "))
+	return sb.String()
+}
+
+// the body of gobDecodeItem as the ordered list of shapes it tries
+func (t *T) genGobSniff() string {
+	var fd *ast.FuncDecl
+	for _, f := range t.pkg.Syntax {
+		for _, d := range f.Decls {
+			if x, ok := d.(*ast.FuncDecl); ok && x.Recv == nil && x.Body != nil && x.Name.Name == "gobDecodeItem" {
+				fd = x
+			}
+		}
+	}
+	var rows []string
+	unrec := func(s ast.Stmt) {
+		rows = append(rows, fmt.Sprintf("GSUnrecognised %s %s", coqStr(t.src(s)), coqStr(t.pos(s))))
+	}
+	if fd == nil {
+		rows = append(rows, fmt.Sprintf("GSUnrecognised %s %s", coqStr("no function gobDecodeItem"), coqStr("?")))
+	} else {
+		data := ""
+		if ps := fd.Type.Params.List; len(ps) == 1 && len(ps[0].Names) == 1 {
+			data = ps[0].Names[0].Name
+		}
+		made := map[string]bool{} // variables declared by `v := make(T, 0)` / `v := T("")`, each consumed by one try
+		body := fd.Body.List
+		for i := 0; i < len(body); i++ {
+			s := body[i]
+			// v := make(T, 0) / v := T("")
+			if as, ok := s.(*ast.AssignStmt); ok && as.Tok == token.DEFINE && len(as.Lhs) == 1 && len(as.Rhs) == 1 {
+				if id, ok := as.Lhs[0].(*ast.Ident); ok {
+					if c, ok := as.Rhs[0].(*ast.CallExpr); ok {
+						fn := t.src(c.Fun)
+						if fn == "make" && len(c.Args) == 2 && t.src(c.Args[1]) == "0" {
+							made[id.Name] = true
+							continue
+						}
+						if tv, ok := t.pkg.TypesInfo.Types[c.Fun]; ok && tv.IsType() && len(c.Args) == 1 && t.src(c.Args[0]) == `""` && id.Name != "typ" {
+							made[id.Name] = true
+							continue
+						}
+					}
+				}
+			}
+			// if err := fn(&v, data); err == nil { return v, nil|err }
+			if is, ok := s.(*ast.IfStmt); ok && is.Init != nil && is.Else == nil && t.src(is.Cond) == "err == nil" && len(is.Body.List) == 1 {
+				if as, ok := is.Init.(*ast.AssignStmt); ok && as.Tok == token.DEFINE && len(as.Lhs) == 1 && t.src(as.Lhs[0]) == "err" && len(as.Rhs) == 1 {
+					if c, ok := as.Rhs[0].(*ast.CallExpr); ok && len(c.Args) == 2 && t.src(c.Args[1]) == data {
+						if u, ok := c.Args[0].(*ast.UnaryExpr); ok && u.Op == token.AND {
+							if v, ok := u.X.(*ast.Ident); ok && made[v.Name] {
+								if rs, ok := is.Body.List[0].(*ast.ReturnStmt); ok && len(rs.Results) == 2 && t.src(rs.Results[0]) == v.Name &&
+									(t.src(rs.Results[1]) == "nil" || t.src(rs.Results[1]) == "err") {
+									if id, ok := c.Fun.(*ast.Ident); ok {
+										delete(made, v.Name)
+										rows = append(rows, fmt.Sprintf("GSTry %s %s", coqStr(id.Name), coqStr(t.pos(s))))
+										continue
+									}
+								}
+							}
+						}
+					}
+				}
+			}
+			// isObject := false; typ := ActivityVocabularyType(""); mm, err := fn(data); if err == nil {..}; if isObject {..}
+			if i+4 < len(body) && squash(t.src(body[i])) == "isObject := false" && squash(t.src(body[i+1])) == `typ := ActivityVocabularyType("")` {
+				if as, ok := body[i+2].(*ast.AssignStmt); ok && as.Tok == token.DEFINE && len(as.Lhs) == 2 && t.src(as.Lhs[0]) == "mm" && t.src(as.Lhs[1]) == "err" && len(as.Rhs) == 1 {
+					if c, ok := as.Rhs[0].(*ast.CallExpr); ok && len(c.Args) == 1 && t.src(c.Args[0]) == data {
+						if fn, ok := c.Fun.(*ast.Ident); ok {
+							if tkey, always, ok := t.gobSniffMapCond(body[i+3]); ok && t.gobSniffObjectBlock(body[i+4]) {
+								rows = append(rows, fmt.Sprintf("GSMap %s %s %s %s", coqStr(fn.Name), coqStr(tkey), cboolS(always), coqStr(t.pos(s))))
+								i += 4
+								continue
+							}
+						}
+					}
+				}
+			}
+			// return nil, errors.New("...")
+			if rs, ok := s.(*ast.ReturnStmt); ok && len(rs.Results) == 2 && t.src(rs.Results[0]) == "nil" && i == len(body)-1 {
+				if c, ok := rs.Results[1].(*ast.CallExpr); ok && t.src(c.Fun) == "errors.New" {
+					rows = append(rows, fmt.Sprintf("GSFail %s", coqStr(t.pos(s))))
+					continue
+				}
+			}
+			unrec(s)
+		}
+	}
+	return fmt.Sprintf("(* the shapes gobDecodeItem tries, in source order *)\nDefinition gob_sniff : list gsniff := [\n  %s].\n\n", strings.Join(rows, ";\n  "))
+}
+
+// if err == nil { isObject = true; if sTyp, ok := mm["k"]; ok { typ = ActivityVocabularyType(sTyp) } }
+func (t *T) gobSniffMapCond(s ast.Stmt) (tkey string, always bool, ok bool) {
+	is, ok2 := s.(*ast.IfStmt)
+	if !ok2 || is.Init != nil || is.Else != nil || t.src(is.Cond) != "err == nil" || len(is.Body.List) != 2 {
+		return "", false, false
+	}
+	if squash(t.src(is.Body.List[0])) != "isObject = true" {
+		return "", false, false
+	}
+	in, ok2 := is.Body.List[1].(*ast.IfStmt)
+	if !ok2 || in.Init == nil || in.Else != nil || t.src(in.Cond) != "ok" || len(in.Body.List) != 1 {
+		return "", false, false
+	}
+	as, ok2 := in.Init.(*ast.AssignStmt)
+	if !ok2 || as.Tok != token.DEFINE || len(as.Lhs) != 2 || len(as.Rhs) != 1 || t.src(as.Lhs[0]) != "sTyp" || t.src(as.Lhs[1]) != "ok" {
+		return "", false, false
+	}
+	key, ok2 := t.mapKey(as.Rhs[0])
+	if !ok2 || squash(t.src(in.Body.List[0])) != "typ = ActivityVocabularyType(sTyp)" {
+		return "", false, false
+	}
+	return key, true, true
+}
+
+// if isObject { it, err := ItemTyperFunc(typ); if err != nil { return nil, err }; switch it.GetType() {..}; return it, err }
+// (the switch itself is Gen/Switches.sw_gobDecodeItem)
+func (t *T) gobSniffObjectBlock(s ast.Stmt) bool {
+	is, ok := s.(*ast.IfStmt)
+	if !ok || is.Init != nil || is.Else != nil || t.src(is.Cond) != "isObject" || len(is.Body.List) != 4 {
+		return false
+	}
+	b := is.Body.List
+	if squash(t.src(b[0])) != "it, err := ItemTyperFunc(typ)" || squash(t.src(b[1])) != "if err != nil { return nil, err }" {
+		return false
+	}
+	sw, ok := b[2].(*ast.SwitchStmt)
+	if !ok || sw.Init != nil || t.src(sw.Tag) != "it.GetType()" {
+		return false
+	}
+	return squash(t.src(b[3])) == "return it, err"
 }
